@@ -158,7 +158,14 @@ def binding (K : Nat) : Trace.Binding (proto K) :=
       | _, _ => none
     retOf := fun l => match l with
       | .done r => some r
-      | _ => none }
+      | _ => none
+    -- declared orders of spsc_ring_buffer.h: the index owned by the other side is read with
+    -- acquire, the own index is published with release
+    reqOrder := fun l => match l with
+      | .pLoadH _ _ => 2 | .pPub _ => 3 | .cLoadT _ => 2 | .cPub _ _ => 3
+      | .bLoadH _ _ => 2 | .bPub _ _ => 3 | .qLoadT _ _ => 2 | .qPub _ _ => 3
+      | .eLoadH => 2 | .eLoadT _ => 2 | .fLoadT => 2 | .fLoadH _ => 2 | .sLoadH => 2 | .sLoadT _ => 2
+      | _ => 0 }
 
 def init (K : Nat) : State (proto K) := initState (proto K) L.idle (fun f => if f < 2 then 0 else movedFrom)
 
